@@ -134,4 +134,37 @@ PROPS = {
         "modelled": ["in-session and session-less retry loops, layer (re)initialisation, LayersDecoder chain, sequence counter: hand models tied by byte-exact correspondence"],
         "assumptions": ["a Send that fails before anything leaves the socket is outside the outcome alphabet (it still consumes a number, which is the safe choice)"],
     },
+    "C01": {
+        "claim": "keys_are_spec: for EVERY credential, suite, random, GUID, session ID and reply script, a returned session's SIK, K1, K2 are the specification's functions (Spec/Rakp.lean) of the exchanged values under the caller's password/KG, so any BMC computing the specification's formulas on the same exchange holds the same keys; session IDs are the Open Session Response's; every later datagram is sealed under exactly these keys (C03 theorems); suites with None/unknown algorithms are refused, never a session. PARTIAL: that the handshake against a conforming BMC succeeds (liveness) is shown by the correspondence run against the independent reference BMC with the verdict 'honest transcript => session, keys equal the BMC's', not by a Lean theorem.",
+        "note": 'trusted: Lean kernel; the byte-level handshake model (newSession = stepOpen / stepRakp2 / stepRakp4 over buildAndSendPayload exchanges, hand-written from v2session_new.go, v2sessionless.go, authenticator.go, hasher.go, confidentiality.go; tied by byte-exact correspondence: every datagram, the result class and SIK/K1/K2 against the real NewV2Session with crypto/rand replaced); HMAC as an abstract function (no cryptographic strength claimed); Spec/Rakp.lean transcribes §13.28-13.32; the reference BMC in the harness (sim.go) is an independent Go implementation used for the model-free verdicts',
+        "technique": "Lean 4 proof (inversion of the handshake model to the specification's key formulas) + byte-exact differential correspondence + reference-BMC verdicts",
+        "ref": '§5 C01',
+        "proofs": ['Bmc.Proofs.C01'],
+        "scenarios": ['hs', 'send'],
+        "rule": 'hs: 9 suites x 6 (thorough 60) credential sets (user 0..16 bytes, password 0..20, KG absent/20 bytes, both lookup modes, privilege 0..5) as honest transcripts of the reference BMC; other BMC password / KG; per authentication algorithm every status in a sample (thorough: all 1..255), other tags, every 3rd (thorough: every) single-bit flip and every truncation length (consistent and inconsistent wrapper length) and 1-3 byte extensions of each of the three replies; lost / garbage / duplicated replies inside each exchange; every algorithm triple 0..4 x 0..5 x 0..3 the BMC may confirm; proposals of None/unknown algorithms; user names of 17..20 bytes. suite: every ordered preference list of length 0..3 (thorough 0..4) over a 5-suite universe x every advertised subset (rotated order) and failing discovery. Non-trivial = every op (each runs a full or failing handshake); distinct = distinct op line.',
+        "modelled": ["newV2Session, openSession/rakpMessage1/rakpMessage3, buildAndSendPayload, the calculate* functions, algorithm constructors and determineCipherSuite are hand models tied by correspondence"],
+        "assumptions": ["the multi-suite path's discovery (RetrieveSupportedCipherSuites) is abstracted to its result in `determine`; its own correctness is C16"],
+    },
+    "C02": {
+        "claim": "session_sound: for every reply script, a session is returned ONLY IF the Open Session Response echoes the tag with status OK and the proposed algorithms, RAKP 2 has tag/status OK and its AuthCode equals the specification's keyed hash (under the caller's password) of the exchanged values, and RAKP 4 has tag/status OK and an ICV equal to the specification's keyed hash under the specification's SIK (caller's KG or password); the incorrect-password error arises exactly from a well-formed status-OK RAKP 2 with another code; truncated/malformed replies fail in the per-layer decoders (C05/C07 theorems).",
+        "note": 'trusted: Lean kernel; the byte-level handshake model (newSession = stepOpen / stepRakp2 / stepRakp4 over buildAndSendPayload exchanges, hand-written from v2session_new.go, v2sessionless.go, authenticator.go, hasher.go, confidentiality.go; tied by byte-exact correspondence: every datagram, the result class and SIK/K1/K2 against the real NewV2Session with crypto/rand replaced); HMAC as an abstract function (no cryptographic strength claimed); Spec/Rakp.lean transcribes §13.28-13.32; the reference BMC in the harness (sim.go) is an independent Go implementation used for the model-free verdicts',
+        "technique": 'Lean 4 proof (soundness by inversion: ok => transcript authentic) + differential correspondence over mutated transcripts',
+        "ref": '§5 C02',
+        "proofs": ['Bmc.Proofs.C02'],
+        "scenarios": ['hs'],
+        "rule": 'hs: 9 suites x 6 (thorough 60) credential sets (user 0..16 bytes, password 0..20, KG absent/20 bytes, both lookup modes, privilege 0..5) as honest transcripts of the reference BMC; other BMC password / KG; per authentication algorithm every status in a sample (thorough: all 1..255), other tags, every 3rd (thorough: every) single-bit flip and every truncation length (consistent and inconsistent wrapper length) and 1-3 byte extensions of each of the three replies; lost / garbage / duplicated replies inside each exchange; every algorithm triple 0..4 x 0..5 x 0..3 the BMC may confirm; proposals of None/unknown algorithms; user names of 17..20 bytes. suite: every ordered preference list of length 0..3 (thorough 0..4) over a 5-suite universe x every advertised subset (rotated order) and failing discovery. Non-trivial = every op (each runs a full or failing handshake); distinct = distinct op line.',
+        "modelled": ["newV2Session, openSession/rakpMessage1/rakpMessage3, buildAndSendPayload, the calculate* functions, algorithm constructors and determineCipherSuite are hand models tied by correspondence"],
+        "assumptions": ["the multi-suite path's discovery (RetrieveSupportedCipherSuites) is abstracted to its result in `determine`; its own correctness is C16"],
+    },
+    "C12": {
+        "claim": "determine = first preference among the advertised suites (choose_first_supported with 'no earlier preference is advertised'), the no-supported-cipher-suite error iff none is, a single preference without discovery, no preference => suite 17 then 3 (defaults + regenerated fact defaults_fact); no_downgrade: for every reply script a returned session carries exactly the proposed authentication/integrity/confidentiality algorithms, which are supported ones (never None/unknown) - hence never a downgraded session; never a panic is C05-level totality of the model (structural recursion) + correspondence.",
+        "note": 'trusted: Lean kernel; the byte-level handshake model (newSession = stepOpen / stepRakp2 / stepRakp4 over buildAndSendPayload exchanges, hand-written from v2session_new.go, v2sessionless.go, authenticator.go, hasher.go, confidentiality.go; tied by byte-exact correspondence: every datagram, the result class and SIK/K1/K2 against the real NewV2Session with crypto/rand replaced); HMAC as an abstract function (no cryptographic strength claimed); Spec/Rakp.lean transcribes §13.28-13.32; the reference BMC in the harness (sim.go) is an independent Go implementation used for the model-free verdicts',
+        "technique": 'Lean 4 proof (first-match characterisation of the selection; inversion of the handshake model) + exhaustive differential correspondence on small universes',
+        "ref": '§5 C12',
+        "proofs": ['Bmc.Proofs.C12'],
+        "scenarios": ['suite', 'hs'],
+        "rule": 'hs: 9 suites x 6 (thorough 60) credential sets (user 0..16 bytes, password 0..20, KG absent/20 bytes, both lookup modes, privilege 0..5) as honest transcripts of the reference BMC; other BMC password / KG; per authentication algorithm every status in a sample (thorough: all 1..255), other tags, every 3rd (thorough: every) single-bit flip and every truncation length (consistent and inconsistent wrapper length) and 1-3 byte extensions of each of the three replies; lost / garbage / duplicated replies inside each exchange; every algorithm triple 0..4 x 0..5 x 0..3 the BMC may confirm; proposals of None/unknown algorithms; user names of 17..20 bytes. suite: every ordered preference list of length 0..3 (thorough 0..4) over a 5-suite universe x every advertised subset (rotated order) and failing discovery. Non-trivial = every op (each runs a full or failing handshake); distinct = distinct op line.',
+        "modelled": ["newV2Session, openSession/rakpMessage1/rakpMessage3, buildAndSendPayload, the calculate* functions, algorithm constructors and determineCipherSuite are hand models tied by correspondence"],
+        "assumptions": ["the multi-suite path's discovery (RetrieveSupportedCipherSuites) is abstracted to its result in `determine`; its own correctness is C16"],
+    },
 }
